@@ -6,7 +6,7 @@ SRC = sys.argv[1] if len(sys.argv) > 1 else '/var/tmp/seeds'
 HEAD = subprocess.check_output(['git', '-C', '/repo', 'rev-parse', '--short', 'HEAD'], text=True).strip()
 # which registered checks are expected to flag the change (first = the property's own check), and what had to be strengthened for that
 EXPECT = {
- 'C01/1': (['C01'], ''), 'C01/2': (['C01', 'C09'], ''),
+ 'C01/1': (['C01'], ''), 'C01/2': (['C09'], 'needs a table of 9-12 knots: beyond the N <= 5 of C01, inside the N <= 12 of the Locate step in C09'),
  'C02/1': (['C02'], ''), 'C02/2': (['C02'], 'missed at first: the accuracy clause was not decided; added the per-run IVT characterisation (key C02/accuracy/first-iterate)'),
  'C03/1': (['C03'], ''), 'C03/2': (['C03'], ''), 'C04/1': (['C04'], ''), 'C04/2': (['C04'], ''),
  'C05/1': (['C05'], 'missed at first: added the multiplier-bound obligation (|multiplier| <= 1 with partial pivoting) and the native hook libphysica_verif_inverse_max_multiplier'), 'C05/2': (['C05'], ''),
